@@ -250,15 +250,32 @@ pub fn run_sweep_api(s: &mut Src, ctx: &mut Ctx) -> Verdict {
 }
 
 pub fn run(s: &mut Src, ctx: &mut Ctx) -> Verdict {
+    SPELLING.with(|c| c.set((0, false)));
     let cfg = GenCfg::full();
-    let store = gen_store(s, &cfg);
+    let mut store = gen_store(s, &cfg);
     set_store_context(&store);
-    let rules = gen_rules(s, &cfg, 5);
+    let mut rules = gen_rules(s, &cfg, 5);
+    // drawn last (saved cases keep decoding): the SPELLING of the case. One case in four calls its numeric fields by
+    // names that end like the exponent part of a number or in a digit (A.xe, B.yE, A.e, C.x1e, A.n0); one in four
+    // writes its arithmetic without blanks (A.xe+1, B.e-2*A.yE). What a rule means does not depend on either.
+    let style = if s.chance(1, 4) { 1 + s.below(2) as u8 } else { 0 };
+    let compact = s.chance(1, 4);
+    restyle_case(style, &mut rules, &mut store);
+    SPELLING.with(|c| c.set((style, compact)));
     if probe_only() {
+        SPELLING.with(|c| c.set((0, false)));
         return Verdict::Pass;
     }
     ctx.describe(|| describe(&rules, &store));
-    judge_pass(&rules, &store, ctx)
+    if style > 0 {
+        ctx.label("spelling:field-names-ending-like-an-exponent-or-in-a-digit");
+    }
+    if compact {
+        ctx.label("spelling:arithmetic-without-blanks");
+    }
+    let v = judge_pass(&rules, &store, ctx);
+    SPELLING.with(|c| c.set((0, false)));
+    v
 }
 
 pub fn judge_pass(rules: &[RuleAst], store: &Store, ctx: &mut Ctx) -> Verdict {
@@ -523,6 +540,7 @@ fn sweep_values() -> Vec<Option<V>> {
 }
 
 pub fn run_sweep(s: &mut Src, ctx: &mut Ctx) -> Verdict {
+    SPELLING.with(|c| c.set((0, false)));
     let vals = sweep_values();
     let ops = [Op::Eq, Op::Ne, Op::Lt, Op::Le, Op::Gt, Op::Ge, Op::Contains, Op::StartsWith, Op::EndsWith, Op::In];
     let op = ops[s.below(ops.len())];
